@@ -163,7 +163,13 @@ def expected_enabled(case):
 def spec(case, mos, io):
     fails = []
     if case["dom"] == "c15broken":
-        for flavour, (res, ran) in sorted(io["broken"].items()):
+        for flavour, val_ in sorted(io["broken"].items()):
+            res, ran = val_[0], (val_[1] if len(val_) > 1 else [])
+            if flavour == "diamond_snapshot":
+                if io["broken"][flavour] != io["normal"][flavour] or res in ("AssertionError",):
+                    fails.append("mode %s/%s: a snapshot inherited over two bases (explicitly enabled): %s, the normal interpreter %s"
+                                 % (case["mode"], case["env"], io["broken"][flavour], io["normal"][flavour]))
+                continue
             if flavour == "message_text":
                 if io["broken"][flavour] != io["normal"][flavour]:
                     fails.append("mode %s/%s: the text of the violation of an explicitly enabled contract differs from the normal "
